@@ -166,6 +166,9 @@ def families(tier, seed):
                     fams.append(Family('point_in/%s/%s/f%d' % (kind, tag, form), fam_point, (kind, fr_name, perm, None, 2, form),
                                        must_reach=('in', 'out')))
             fams.append(Family('point_in/Plane/%s' % tag, fam_point, ('Plane', fr_name, perm, None, 3, 0), must_reach=('in', 'out')))
+            # the same plane built from three points / from the general form with a non-unit coefficient vector
+            for form in ((1, 2) if (tier != 'quick' or fr_name in ('axis', 'pyth3')) else ()):
+                fams.append(Family('point_in/Plane/%s/f%d' % (tag, form), fam_point, ('Plane', fr_name, perm, None, 3, form), must_reach=('in', 'out')))
             shapes2 = ['tri', 'penta'] if tier == 'quick' else list(B.UNIT_POLYS)
             for sh in shapes2:
                 fams.append(Family('point_in/ConvexPolygon/%s/%s' % (sh, tag), fam_point, ('ConvexPolygon', fr_name, perm, sh, 3, 0),
